@@ -177,7 +177,8 @@ Inductive op :=
 | BankMsgSend (caller to : acct) (d : denom) (x : Z)
 | Erc20Transfer (caller : acct) (t : tok) (to : acct) (x : Z)
 | Erc20Burn (caller : acct) (t : tok) (x : Z)
-| Framed (f : frame) (o : op).
+| Framed (f : frame) (o : op)
+| Seq (o1 o2 : op).                              (* two operations in ONE transaction: both or nothing *)
 
 Definition bind {A B} (o : option A) (f : A -> option B) : option B :=
   match o with Some a => f a | None => None end.
@@ -270,6 +271,7 @@ Definition exec (s : st) (o : op) : option st :=
       | Some b => _ <- guard (tb_burn b) ;; erc_burn s t caller x
       end
   | Framed _ _ => None
+  | Seq _ _ => None
   end.
 
 (** one transaction: new state and whether the tx was accepted (code 0, no VM error) *)
@@ -283,6 +285,12 @@ Fixpoint step (s : st) (o : op) : st * bool :=
       | FInnerRevert => (s, true)
       | FSwallow => (fst r, true)
       end
+  | Seq o1 o2 =>
+      let r1 := step s o1 in
+      if snd r1 then
+        let r2 := step (fst r1) o2 in
+        if snd r2 then (fst r2, true) else (s, false)
+      else (s, false)
   | _ => match exec s o with Some s' => (s', true) | None => (s, false) end
   end.
 
